@@ -14,11 +14,15 @@ TIE = {'core.PreConverted / PostConverted / FixedSeatCount / Conditioned / ByCon
        'inspect.signature of every evaluate() / core.accepts_seats / accepts_prev_gains': 'compared with Wrappers.sig_of / acc_seats / acc_prev on every node of every generated tree',
        'Python argument binding': 'Wrappers.bind compared with CPython on generated signatures and calls',
        'TieBreaking._replace_sel_ties / _replace_distr_ties, convert.VoteTotals / SubsettedVotes, util.add_dict_to_dict': 'correspondence (direct unit streams)'}
-RULE = ('corpus (zero-seat constituencies, omitted seat counts); random well-typed wrapper trees of depth <= 4 over real votelib leaves (Plurality, '
+RULE = ('corpus (zero-seat constituencies, omitted seat counts, seat dictionary vs fixed apportioner, PreApportioned around generic wrappers); '
+        'random well-typed wrapper trees of depth <= 4 over real votelib leaves (Plurality, '
         'HighestAverages d\'Hondt/Sainte-Lague, LargestRemainder hare, Absolute/Relative/Alternative/PreviousGain thresholds, VotesPerSeat, '
         'ListOrderTieBreaker) and converters (VoteTotals, MergedDistributions, SelectionToDistribution, identity, halving); simple and '
         'per-constituency votes with constructed ties; seats as int / per-constituency dict / fixed int or dict apportioner / distributor '
-        'apportioner / omitted; prev_gains and max_seats (flat and nested), seat count positionally or by keyword. Each case: implementation '
+        'apportioner / omitted, every seat specification (incl. a dictionary from the caller, an enclosing PreApportioned or FixedSeatCount) '
+        'against every apportioner kind; generic-signature wrappers (PreConverted, PostConverted, TieBreaking, FixedSeatCount; VotingSystem in '
+        'stream unembedded) at the constituency level, also directly below PreApportioned / RemovedApportionment / MultistageDistributor; '
+        'prev_gains and max_seats (flat and nested), seat count positionally or by keyword. Each case: implementation '
         'vs extracted run_impl (oracle leaves), implementation vs the by-hand composition on the same leaf objects, run_spec vs by-hand. '
         'non-trivial = tree depth >= 2 or prev_gains/max_seats supplied or a tie / zero-seat constituency occurred; distinct by case hash')
 PARTIAL = ['UnusedVotesDistributor, VotingSystem, ByConstituency preselector, non-simple vote subsetters: not embedded in Model/Wrappers.v '
@@ -150,6 +154,39 @@ def depth_of(t):
     return 1 + max([depth_of(s) for s in subs] or [0])
 
 
+def shape_tags(case):
+    """coverage of two regions the quantifier names: a seat dictionary meeting a fixed apportioner, and a non-inspecting constituency-level
+    wrapper (PreApportioned, RemovedApportionment, multi-stage depth 2) directly around a generic-signature wrapper with gains / caps supplied"""
+    tags = set()
+    gains = bool(case['args'].get('prev_gains')) or bool(case['args'].get('max_seats'))
+
+    def walk(t, seats):        # seats: kind of n_seats this node is called with ('dict' | 'other' | None = unknown)
+        k = t[0]
+        if k in ('bycons', 'preapp'):
+            if seats == 'dict' and isinstance(t[2], (int, dict)):
+                tags.add('seat-dict-meets-fixed-apportioner')
+            if k == 'preapp':
+                if t[1][0] in ('pre', 'post', 'tiebr', 'fixed'):
+                    tags.add('preapp-around-generic' + ('+gains' if gains else ''))
+                walk(t[1], 'dict')
+            return
+        if k == 'fixed':
+            walk(t[1], 'dict' if isinstance(t[2], dict) else 'other')
+        elif k == 'remapp':
+            walk(t[1], 'other')
+        elif k == 'cond' and t[3] == 2:
+            walk(t[2], seats)
+        elif k == 'multi' and t[2] == 2:
+            for st in t[1]:
+                walk(st, seats)
+        elif k == 'pre':
+            walk(t[3], seats)
+        elif k in ('post', 'tiebr'):
+            walk(t[1], seats)
+    walk(case['tree'], 'dict' if isinstance(case['args'].get('n_seats'), dict) else 'other')
+    return tags
+
+
 def has_tie(v):
     import votelib.evaluate.core as core
     if isinstance(v, core.Tie):
@@ -192,6 +229,8 @@ def explore_trees(ctx, stream, cases):
         flags = (wt, faithful, fits)
         ctx.dist['wt=%d faithful=%d fits=%d' % flags] += 1
         ctx.dist['depth:%d' % depth_of(c['tree'])] += 1
+        for tag in shape_tags(c):
+            ctx.dist['shape:' + tag] += 1
         ctx.dist['leaf-calls:%s' % ('0' if ncalls == 0 else '1-3' if ncalls < 4 else '4-9' if ncalls < 10 else '10+')] += 1
         # (0) signature / inspect tie on every node
         import votelib.evaluate.core as core
@@ -334,25 +373,47 @@ class Gen:
             return ['ev', self.leaf('vps', [self.rng.randint(10, 200)])]
         return ['ev', self.dist_leaf()]
 
-    def cdist(self, d, want, consts, lists_ok=True):
-        """nested votes -> nested result; want = kind of n_seats at the call: 'int' | 'dict' | 'none'"""
+    def cdist(self, d, want, consts, lists_ok=True, flat=False):
+        """nested votes -> nested result; want = kind of n_seats at the call: 'int' | 'dict' | 'none'.
+        A seat DICTIONARY (want='dict': handed in at the root, or produced by an enclosing PreApportioned / FixedSeatCount) may meet every
+        kind of apportioner, also a fixed int / dict one (which then wins).  flat: the parent does not need a per-constituency result."""
         r = self.rng.random()
         inner = lambda: (self.dist(d - 1, False) if (self.rng.random() < 0.8 or not lists_ok) else self.sel(d - 1))   # noqa
-        if d <= 1 or r < 0.4:
-            kinds = {'int': ['none', 'none', 'int', 'dict', 'ev', 'ev'], 'dict': ['none', 'none', 'ev'], 'none': ['int', 'dict', 'vps']}[want]
+        if d <= 1 or r < 0.36:
+            kinds = {'int': ['none', 'none', 'int', 'dict', 'ev', 'ev'], 'dict': ['none', 'none', 'ev', 'int', 'dict', 'dict'],
+                     'none': ['int', 'dict', 'vps']}[want]
             return ['bycons', inner(), self.aspec(kinds, consts)]
-        if r < 0.55:
-            return ['cond', self.elim(d - 1), self.cdist(d - 1, want, consts, lists_ok), 2]
-        if r < 0.7 and want != 'none':
+        if r < 0.48:
+            return ['cond', self.elim(d - 1), self.cdist(d - 1, want, consts, lists_ok, flat), 2]
+        if r < 0.60 and want != 'none':
             return ['multi', [self.cdist(d - 1, want, consts, False) for _ in range(self.rng.randint(1, 2))], 2]
-        if r < 0.8 and want == 'int':
+        if r < 0.68 and want == 'int':
             return ['byparty', self.dist(d - 1, True), self.pick([None, self.dist_leaf(), self.dist(d - 1, True)])]
-        if r < 0.8 and want == 'none':
+        if r < 0.68 and want == 'none':
             return ['byparty', self.leaf('vps', [self.rng.randint(20, 90)]), self.dist_leaf()]
-        if r < 0.9 and want == 'dict':
-            return ['remapp', self.cdist(d - 1, 'int', consts, lists_ok)]
-        kinds = {'int': ['int', 'dict', 'ev'], 'dict': ['none'], 'none': ['int', 'dict', 'vps']}[want]
-        return ['preapp', self.cdist(d - 1, 'dict', consts, lists_ok), self.aspec(kinds, consts)]
+        if r < 0.76 and want == 'dict':
+            return ['remapp', self.cdist(d - 1, 'int', consts, lists_ok, flat)]
+        if r < 0.76 and want == 'none':     # a fixed seat count (int or per-constituency dict) in front of a seated per-constituency part
+            w2 = self.pick(['int', 'dict'])
+            n = self.rng.randint(1, 9) if w2 == 'int' else {c: self.rng.randint(0, 4) for c in consts}
+            return ['fixed', self.cdist(d - 1, w2, consts, lists_ok, flat), n]
+        if r < 0.88:
+            return self.cgeneric(d, want, consts, lists_ok, flat)
+        kinds = {'int': ['int', 'dict', 'ev'], 'dict': ['none', 'none', 'int', 'dict', 'ev'], 'none': ['int', 'dict', 'vps']}[want]
+        body = self.cgeneric(d - 1, 'dict', consts, lists_ok, flat) if self.rng.random() < 0.3 else self.cdist(d - 1, 'dict', consts, lists_ok, flat)
+        return ['preapp', body, self.aspec(kinds, consts)]
+
+    def cgeneric(self, d, want, consts, lists_ok=True, flat=False):
+        """a wrapper with a generic (votes, *args, **kwargs) signature at the constituency level: whatever the enclosing wrapper is given
+        (seat dictionary, nested prev_gains / max_seats) must pass through it unchanged"""
+        k = self.pick(['pre', 'pre', 'post', 'tiebr'] + (['merged'] if flat else []))
+        if k == 'pre':
+            return ['pre', self.id(), self.conv_simple(), self.cdist(d - 1, want, consts, lists_ok, flat)]
+        if k == 'post':
+            return ['post', self.cdist(d - 1, want, consts, lists_ok, flat), self.id(), 'ident']
+        if k == 'tiebr':
+            return ['tiebr', self.cdist(d - 1, want, consts, lists_ok, flat), self.leaf('plurality')]
+        return ['post', self.cdist(d - 1, want, consts, False, False), self.id(), 'merged']
 
     # ---- inputs
     def simple_votes(self, parties, tied=False):
@@ -390,7 +451,7 @@ class Gen:
                 args['max_seats'] = {p: rng.randint(1, 6) for p in parties if rng.random() < 0.5}
         elif root in ('cdist', 'merge'):
             want = self.pick(['int', 'int', 'dict', 'none'])
-            tree = self.cdist(d if root == 'cdist' else d - 1, want, consts, root == 'cdist')
+            tree = self.cdist(d if root == 'cdist' else d - 1, want, consts, root == 'cdist', root == 'cdist')
             votes = self.nested_votes(consts, parties, tied)
             if want == 'int':
                 args['n_seats'] = rng.randint(1, 12) if rng.random() < 0.93 else 0
@@ -454,13 +515,14 @@ def gen_random(rng, count, dmax=4):
 
 def gen_boundary(rng, count):
     """what the property names: prev_gains / max_seats through inspecting wrappers, zero-seat constituencies, omitted seats,
-    subsetting depth, multi-stage accumulation at depth 1 and 2, nested tie-breaking"""
+    subsetting depth, multi-stage accumulation at depth 1 and 2, nested tie-breaking, every pairing of seat specification
+    (int / dict / omitted) with apportioner kind, non-inspecting PreApportioned directly around generic-signature wrappers"""
     g = Gen(rng)
     for i in range(count):
         g.nid = 0
         parties = T.PARTIES[:rng.randint(2, 4)]
         consts = T.CONSTS[:rng.randint(2, 3)]
-        k = i % 8
+        k = i % 10
         if k == 0:    # zero-seat constituencies through every kind of apportioner
             a = rng.choice([{c: rng.choice([0, 0, 1, 2]) for c in consts}, ['ev', g.dist_leaf()], 0])
             tree = ['bycons', rng.choice([g.dist_leaf(), g.leaf('plurality')]), a]
@@ -502,10 +564,56 @@ def gen_boundary(rng, count):
             tree = ['preapp', ['multi', [['bycons', g.dist_leaf(), None], ['remapp', ['byparty', g.dist_leaf(), None]]], 2],
                     rng.choice([['ev', g.dist_leaf()], {c: rng.randint(0, 3) for c in consts}])]
             yield dict(unit='tree', tree=tree, votes=g.nested_votes(consts, parties), args={'n_seats': rng.randint(1, 8)}, style=rng.choice(['pos', 'kw']))
-        else:         # fixed seat count with keyword arguments
+        elif k == 7:  # fixed seat count with keyword arguments
             tree = ['fixed', ['cond', g.elim(0), g.dist_leaf(), 1], rng.randint(1, 7)]
             yield dict(unit='tree', tree=tree, votes=g.simple_votes(parties),
                        args={'prev_gains': g.gains(parties), 'max_seats': {p: rng.randint(1, 4) for p in parties}}, style='kw')
+        elif k == 8:  # a seat DICTIONARY arrives at a wrapper whose apportioner is fixed (int / dict): the fixed apportionment counts.
+            # The dictionary comes from the caller, from an enclosing PreApportioned (any apportioner kind) or from a FixedSeatCount
+            fixed = lambda: rng.choice([rng.randint(1, 4), {c: rng.randint(0, 4) for c in consts if rng.random() < 0.9}])   # noqa
+            leaf = lambda: rng.choice([g.dist_leaf(), g.dist_leaf(), g.leaf('plurality')])   # noqa
+            target = rng.choice([lambda: ['bycons', leaf(), fixed()], lambda: ['preapp', ['bycons', leaf(), rng.choice([None, None, fixed()])], fixed()]])()
+            outside = {c: rng.randint(0, 5) for c in consts if rng.random() < 0.9}
+            how = rng.choice(['direct', 'direct', 'preapp-ev', 'preapp-fixed', 'fixedcount', 'cond'])
+            if how == 'direct':
+                tree, args = target, {'n_seats': outside}
+            elif how == 'preapp-ev':
+                tree, args = ['preapp', target, ['ev', g.dist_leaf()]], {'n_seats': rng.randint(2, 12)}
+            elif how == 'preapp-fixed':
+                tree, args = ['preapp', target, fixed()], ({'n_seats': rng.randint(1, 9)} if rng.random() < 0.5 else {})
+            elif how == 'fixedcount':
+                tree, args = ['fixed', target, outside], {}
+            else:
+                tree, args = ['cond', g.elim(0), target, 2], {'n_seats': outside}
+            if rng.random() < 0.3 and how != 'fixedcount':
+                args['prev_gains'] = {c: g.gains(parties, 2) for c in consts if rng.random() < 0.8}
+            yield dict(unit='tree', tree=tree, votes=g.nested_votes(consts, parties), args=args,
+                       style='kw' if how == 'fixedcount' else rng.choice(['pos', 'kw']))
+        else:         # PreApportioned DIRECTLY around a wrapper with a generic signature, previous gains / seat caps supplied:
+            # both must reach the per-constituency evaluation below the generic wrapper (singly and stacked generic wrappers)
+            def generic(child, top=True):
+                w = rng.choice(['pre', 'pre', 'post', 'tiebr'] + (['merged'] if top else []))
+                if w == 'pre':
+                    return ['pre', g.id(), g.conv_simple(), child]
+                if w == 'post':
+                    return ['post', child, g.id(), 'ident']
+                if w == 'tiebr':
+                    return ['tiebr', child, g.leaf('plurality')]
+                return ['post', child, g.id(), 'merged']
+            core_ = rng.choice([lambda: ['bycons', g.dist_leaf(), None],
+                                lambda: ['multi', [['bycons', g.dist_leaf(), None] for _ in range(rng.randint(1, 2))], 2],
+                                lambda: ['cond', g.elim(0), ['bycons', g.dist_leaf(), None], 2]])()
+            body = generic(generic(core_, False)) if rng.random() < 0.3 else generic(core_)
+            tree = ['preapp', body, rng.choice([['ev', g.dist_leaf()], ['ev', g.dist_leaf()], rng.randint(1, 5), {c: rng.randint(0, 4) for c in consts}])]
+            if rng.random() < 0.3:      # ... as a later stage of a multi-stage distribution (gains accumulated by the first stage)
+                tree = ['multi', [['bycons', g.dist_leaf(), rng.randint(1, 2)], tree], 2] if body[-1] != 'merged' else tree
+            args = {'n_seats': rng.randint(1, 10)}
+            what = rng.choice(['prev', 'max', 'both'])
+            if what != 'max':
+                args['prev_gains'] = {c: g.gains(parties, 3) for c in consts if rng.random() < 0.9}
+            if what != 'prev':
+                args['max_seats'] = {c: {p: rng.choice([0, 1, 2, 3, 3, 4]) for p in parties if rng.random() < 0.7} for c in consts if rng.random() < 0.9}
+            yield dict(unit='tree', tree=tree, votes=g.nested_votes(consts, parties), args=args, style=rng.choice(['pos', 'kw']))
 
 
 # ---------------------------------------------------------------- unit streams: binding, tie replacement, parts
@@ -690,6 +798,54 @@ def parts_canon(c, w):
 
 
 # ---------------------------------------------------------------- wrappers that are not embedded in the model: implementation vs by hand
+# VotingSystem adds nothing to the evaluator it wraps - at the root, and at every inner position whose parent does not inspect the
+# signature of its part (below ByConstituency / Conditioned / ByParty a generic signature is the known finding's class)
+VSYS_SLOTS = {'pre': [3], 'post': [1], 'fixed': [1], 'preapp': [1], 'remapp': [1], 'tiebr': [1], 'plist': [1]}
+
+
+def vsys_spots(t, path=()):
+    """paths of the parts that may be wrapped in a VotingSystem without changing anything"""
+    out = []
+    k = t[0]
+    if k == 'leaf':
+        return out
+    if k == 'multi':
+        for i, st in enumerate(t[1]):
+            out.append(path + (1, i))
+            out += vsys_spots(st, path + (1, i))
+        return out
+    for i in VSYS_SLOTS.get(k, []):
+        out.append(path + (i,))
+    for i, x in enumerate(t):
+        if i > 0 and isinstance(x, list) and x and isinstance(x[0], str) and x[0] != 'ev':
+            out += vsys_spots(x, path + (i,))
+        elif i == 2 and k in ('bycons', 'preapp') and isinstance(x, list):
+            out += vsys_spots(x[1], path + (2, 1))
+    return out
+
+
+def vsys_case(c, rng):
+    spots = vsys_spots(c['tree'])
+    vtree = copy.deepcopy(c['tree'])
+    if spots and rng.random() < 0.7:
+        path = rng.choice(spots)
+        node = vtree
+        for i in path[:-1]:
+            node = node[i]
+        node[path[-1]] = ['vsys', node[path[-1]]]
+    else:
+        vtree = ['vsys', vtree]
+    return dict(c, unit='vsys', vtree=vtree)
+
+
+def vsys_eval(case):
+    """(evaluation with the VotingSystem in place, evaluation of the same composition without it)"""
+    built = T.Built(case['vtree'])
+    pos, kw = split_call(case)
+    ri = common.call_impl(lambda: built.obj.evaluate(copy.deepcopy(case['votes']), *copy.deepcopy(pos), **copy.deepcopy(kw)), 10)
+    return ri, impl_result(case)
+
+
 def unembedded_checks(ctx, rng, count):
     """VotingSystem, UnusedVotesDistributor (depth 1), ByConstituency with a preselector: the declarative clause only"""
     import votelib, votelib.evaluate.core as core, votelib.evaluate.proportional as prop, votelib.evaluate.threshold as thr
@@ -703,12 +859,8 @@ def unembedded_checks(ctx, rng, count):
         parties = T.PARTIES[:rng.randint(2, 5)]
         if kind == 'vsys':
             c = g.case(rng.choice([1, 2, 3]))
-            built = T.Built(c['tree'])
-            pos, kw = split_call(c)
-            ri = common.call_impl(lambda: votelib.VotingSystem('x', built.obj).evaluate(
-                copy.deepcopy(c['votes']), *copy.deepcopy(pos), **copy.deepcopy(kw)), 10)
-            rw = impl_result(c)             # the system wrapper adds nothing to the wrapped evaluator
-            case, want = dict(c, unit='vsys'), rw
+            case = vsys_case(c, rng)
+            ri, want = vsys_eval(case)
         elif kind == 'unused':
             names = [rng.choice(['hare', 'droop', 'hagenbach_bischoff']) for _ in range(rng.randint(1, 2))]
             stages = [prop.LargestRemainder(rng.choice(['hare', 'droop'])) if rng.random() < 0.5 else prop.QuotaDistributor(rng.choice(['hare', 'droop']))
@@ -810,6 +962,15 @@ def explore(ctx, widen=1):
 
 
 def replay(ctx, case, stream=None):
+    if case.get('unit') == 'vsys' and 'vtree' in case:
+        ri, want = vsys_eval(case)
+        a, b = wire_of_result(ri), wire_of_result(want)
+        ctx.evaluations += 1
+        if a != b and not (a[0] == 'err' and b[0] == 'err'):
+            ctx.checker_false += 1
+            ctx.violations.append(dict(stream='unembedded', case=case, impl=str(ri)[:500], model='without VotingSystem: ' + str(want)[:500],
+                                       why='vsys differs from the by-hand composition: wrapper %s, by hand %s' % (short(a), short(b))))
+        return
     if case.get('unit') in ('vsys', 'unused', 'presel'):
         # implementation-side clause of a wrapper without a model: re-run that stream with the recorded seed
         unembedded_checks(ctx, common.mk_rng(ctx.seed, ID + '/unembedded'), 450)
